@@ -176,7 +176,9 @@ func vSameBytes(a, b []byte) bool {
 // or with an unknown key nothing verifies.
 func verifC06_SignVerify() {
 	n := verifBound("maxStr")
-	signed := vPartsOf("signed", n)
+	// the signed request is fixed; the request that is sent differs from it in ONE part, whose
+	// new value is symbolic (it may coincide with the signed value: then nothing was changed)
+	signed := vParts{method: "POST", path: "/a", query: "x", header: "t", body: []byte{7}}
 	r1 := signed.request()
 	s := New().SetCredential("key1", "secret1").SetAccessKeyStore(vKeyStore{})
 	ttl := time.Minute
@@ -185,7 +187,22 @@ func verifC06_SignVerify() {
 	auth, date := r1.Header.Get("Authorization"), r1.Header.Get("X-Me-Date")
 	verifAssert(auth != "" && date != "", "signature-headers-set")
 
-	sent := vPartsOf("sent", n)
+	sent := signed
+	switch verifChoose("changedPart", 6) {
+	case 1:
+		sent.method = []string{"GET", "POST", "PUT"}[verifChoose("sent.method", 3)]
+	case 2:
+		sent.path = "/" + verifString("sent.path", n)
+		verifAssume(vAlnum(sent.path[1:]))
+	case 3:
+		sent.query = verifString("sent.queryValue", n)
+		verifAssume(vAlnum(sent.query))
+	case 4:
+		sent.header = verifString("sent.signedHeaderValue", n)
+		verifAssume(vAlnum(sent.header))
+	case 5:
+		sent.body = verifBytes("sent.body", verifChoose("sent.bodyLength", n+1))
+	}
 	r2 := sent.request()
 	r2.Header.Set("Authorization", auth)
 	r2.Header.Set("X-Me-Date", date)
